@@ -6,6 +6,7 @@ package main
 
 import (
 	"fmt"
+	"sort"
 	"go/constant"
 	"go/token"
 	"go/types"
@@ -366,7 +367,13 @@ func (f *framing) nonRTCMArg(v ssa.Value) (ssa.Value, bool) {
 // ruleFetchReturns: every exit of the fetcher returns the whole buffer, or
 // withholds exactly the pushed-back start byte, or hands the whole buffer to
 // the single-frame decoder; no message is empty.
-func (f *framing) ruleFetchReturns(rule string) {
+type fetchOpts struct {
+	inputErrorExitsOnly bool // check only the exits taken on an input error (flush of the partial data)
+	leaderOK            bool // require the decoder call to follow a successful leader check (C01/C10)
+	skipPairing         bool // do not report unpaired push-backs
+}
+
+func (f *framing) ruleFetchReturns(rule string, o fetchOpts) {
 	c, P, pl := f.c, f.P, f.pl
 	fn := pl.fetch
 	A := f.acc[fn]
@@ -380,9 +387,36 @@ func (f *framing) ruleFetchReturns(rule string) {
 		}
 	})
 	usedPush := map[ssa.Instruction]bool{}
+	isInputErrExit := func(r *ssa.Return) bool {
+		for _, ft := range dominatingFacts(r.Block()) {
+			bo, ok := ft.Cond.(*ssa.BinOp)
+			if !ok || !(isNilConst(bo.X) || isNilConst(bo.Y)) {
+				continue
+			}
+			x := bo.X
+			if isNilConst(x) {
+				x = bo.Y
+			}
+			ex, ok := x.(*ssa.Extract)
+			if !ok {
+				continue
+			}
+			call, ok := ex.Tuple.(*ssa.Call)
+			if !ok || (call.Call.StaticCallee() != pl.pbNext && call.Call.StaticCallee() != pl.eat) {
+				continue
+			}
+			if (bo.Op == token.NEQ) == ft.Val {
+				return true
+			}
+		}
+		return false
+	}
 	for i, r := range returnsOf(fn) {
 		label := fmt.Sprintf("fetch:return#%d", i+1)
 		msg, errv := r.Results[0], r.Results[1]
+		if o.inputErrorExitsOnly && !isInputErrExit(r) {
+			continue
+		}
 		switch {
 		case isNilConst(msg):
 			// nothing delivered: nothing may have been consumed
@@ -454,6 +488,27 @@ func (f *framing) ruleFetchReturns(rule string) {
 			arg := call.Call.Args[1]
 			_, old := f.superseded(A, arg, call)
 			c.Check(A[arg] && !old, rule, label+":decoder-gets-whole-buffer", call.Pos(), "the single-frame decoder receives the whole current frame buffer", "the single-frame decoder is not given the whole current frame buffer")
+			// the decoder is entered only after the leader helper accepted the same prefix: by
+			// L-helper-pure its own leader check then succeeds too, so it can only deliver a
+			// fully gated typed message or a non-RTCM wrapper (never a typed message that
+			// merely carries a format error, which the stream handler would forward)
+			leaderOK := false
+			eachInstr(fn, func(i2 ssa.Instruction) {
+				hc, ok := i2.(*ssa.Call)
+				if !ok || hc.Call.StaticCallee() != pl.lenType || !A[hc.Call.Args[len(hc.Call.Args)-1]] {
+					return
+				}
+				for _, rr := range referrers(hc) {
+					if ex3, ok := rr.(*ssa.Extract); ok && ex3.Index == 2 && f.A.errKnownNil(ex3, call.Block()) {
+						leaderOK = true
+					}
+				}
+			})
+			if !o.leaderOK {
+				leaderOK = true
+			}
+			c.Check(leaderOK, rule, label+":decoder-after-leader-ok", call.Pos(), "the decoder is called only on the path where the leader helper accepted the frame's first five bytes",
+				"the single-frame decoder is called although the leader was rejected (or not checked): its typed-message-with-format-error result would be forwarded by the stream handler as a typed message that is not a frame")
 			// error returned is the decoder's own error (never "done")
 			okErr := false
 			if ex2, ok := errv.(*ssa.Extract); ok && ex2.Tuple == ssa.Value(call) && ex2.Index == 1 {
@@ -463,6 +518,9 @@ func (f *framing) ruleFetchReturns(rule string) {
 		}
 	}
 	for _, p := range pushes {
+		if o.inputErrorExitsOnly || o.skipPairing {
+			break
+		}
 		if !usedPush[p] {
 			c.Fail(rule, "fetch:unpaired-push-back", p.Pos(), "refuted", "a push-back that is not paired with the trimmed junk return: bytes are re-read, reordered or duplicated")
 		}
@@ -758,9 +816,33 @@ func (f *framing) ruleFetcherExits(rule string) {
 	// every If in the fetcher is one of: eat error test, len(frame)==0, len(frame)>1,
 	// frame[len-1]==start, read error tests, counter tests, helper error test
 	_, start := f.P.frameConsts()
+	retSet := func(b *ssa.BasicBlock) string {
+		seen := map[*ssa.BasicBlock]bool{}
+		var rs []int
+		work := []*ssa.BasicBlock{b}
+		for len(work) > 0 {
+			x := work[len(work)-1]
+			work = work[:len(work)-1]
+			if seen[x] {
+				continue
+			}
+			seen[x] = true
+			if _, ok := lastInstr(x).(*ssa.Return); ok {
+				rs = append(rs, x.Index)
+			}
+			work = append(work, x.Succs...)
+		}
+		sort.Ints(rs)
+		return fmt.Sprint(rs)
+	}
 	eachInstr(fn, func(ins ssa.Instruction) {
 		ifi, ok := ins.(*ssa.If)
 		if !ok {
+			return
+		}
+		// only conditions that decide which exit is taken matter (a branch whose
+		// arms rejoin, e.g. logging, cannot reject or split anything)
+		if blk := ifi.Block(); len(blk.Succs) == 2 && retSet(blk.Succs[0]) == retSet(blk.Succs[1]) {
 			return
 		}
 		kind := ""
@@ -1530,4 +1612,32 @@ func (f *framing) ruleRejectionSites(rule string) {
 	for _, k := range []string{"preamble", "leader(reserved/length/short)", "incomplete", "crc", "helper:reserved-bits", "helper:zero-length", "crc:crc-mismatch"} {
 		c.Check(seen[k], rule, "reason-present("+k+")", token.NoPos, "the standard rejection reason is implemented", "standard rejection reason missing: "+k)
 	}
+}
+
+// accumulatorsOnly computes the accumulator chain without emitting obligations.
+func (f *framing) accumulatorsOnly(fn *ssa.Function, init []ssa.Value) map[ssa.Value]bool {
+	rb := map[ssa.Value]bool{}
+	for _, r := range f.reads(fn) {
+		if r.b != nil {
+			rb[r.b] = true
+		}
+	}
+	return f.accumulators(fn, init, rb)
+}
+
+// prefixHighs: the high bounds of prefix slices of the decoder's input used as RawData.
+func (f *framing) prefixHighs() []ssa.Value {
+	var out []ssa.Value
+	fn := f.pl.getMsg
+	param := fn.Params[1]
+	for _, r := range returnsOf(fn) {
+		call, ok := r.Results[0].(*ssa.Call)
+		if !ok || call.Call.StaticCallee() != f.pl.newMsg {
+			continue
+		}
+		if sl, ok := call.Call.Args[2].(*ssa.Slice); ok && sl.X == ssa.Value(param) && sl.High != nil {
+			out = append(out, sl.High)
+		}
+	}
+	return out
 }
